@@ -34,6 +34,9 @@ structure Defects where
   oldDayUnmarked : Bool
   /-- #3 `deletion.rs:124-132`: the row re-dated by a reference deletion marks no day -/
   refDeletionUnmarked : Bool
+  /-- #3 `deletion.rs:71-94`: a reference deletion that names no existing reference re-dates and re-signs the
+      source row all the same (no right check) -/
+  refDeletionTouchesRowWithoutRef : Bool
   /-- `node.rs:951-957`: a synchronised deletion removes whatever version is stored locally but marks
       the day of the version named in the record -/
   syncDeletionLocalDayUnmarked : Bool
@@ -64,18 +67,21 @@ structure Defects where
   summaryFirstEntityOnly : Bool
 deriving Repr, DecidableEq
 
-/-- the code as it is. `oldDayUnmarked` (#13), `syncDeletionLocalDayUnmarked` and `lazyScan` were fixed in /repo
-    (commits 8123d04, 1a9cbe6, 079e672) and are off; their witnesses and replays stay as regression cases. -/
+/-- the code as it is. `oldDayUnmarked` (#13), `syncDeletionLocalDayUnmarked`, `lazyScan`, `refDeletionUnmarked` (#3)
+    and `refDeletionTouchesRowWithoutRef` (#3) were fixed in /repo (commits 8123d04, 1a9cbe6, 079e672, 9b21e0a,
+    456214b) and are off; their witnesses and replays stay as regression cases. -/
 def Defects.asImplemented : Defects :=
   { historySeedDropped := true, entityNotCompared := true, emptyDayRow := true, oldDayUnmarked := false,
-    refDeletionUnmarked := true, syncDeletionLocalDayUnmarked := false, ingestIgnoresTombstones := true,
+    refDeletionUnmarked := false, refDeletionTouchesRowWithoutRef := false,
+    syncDeletionLocalDayUnmarked := false, ingestIgnoresTombstones := true,
     rightDependsOnLocalAuthor := true, edgesOnlyForFetchedRows := true, syncDeletionKeepsEdges := true,
     deletionBatchKeyedById := true, lazyScan := false,
     syncDeletionRoomScoped := true, summaryFirstEntityOnly := true }
 
 def Defects.none : Defects :=
   { historySeedDropped := false, entityNotCompared := false, emptyDayRow := false, oldDayUnmarked := false,
-    refDeletionUnmarked := false, syncDeletionLocalDayUnmarked := false, ingestIgnoresTombstones := false,
+    refDeletionUnmarked := false, refDeletionTouchesRowWithoutRef := false,
+    syncDeletionLocalDayUnmarked := false, ingestIgnoresTombstones := false,
     rightDependsOnLocalAuthor := false, edgesOnlyForFetchedRows := false, syncDeletionKeepsEdges := false,
     deletionBatchKeyedById := false, lazyScan := false,
     syncDeletionRoomScoped := false, summaryFirstEntityOnly := false }
